@@ -183,6 +183,8 @@ struct World {
     gen: u32,
     hist: Vec<String>,
     subs: u64,
+    /// when set, batch entries are stamped this many seconds in the past (just inside the accepted age)
+    aged_stamp: Option<u64>,
 }
 
 impl World {
@@ -213,7 +215,7 @@ async fn new_world(rng: &mut Rng, npeers: usize) -> Result<World, String> {
             PeerM { id, uid: UserId::from_bytes(id), last: 0, salts: Vec::new() }
         })
         .collect();
-    Ok(World { sys: Arc::new(sys), path, _dir: dir, peers, gen: 0, hist: Vec::new(), subs: 0 })
+    Ok(World { sys: Arc::new(sys), path, _dir: dir, peers, gen: 0, hist: Vec::new(), subs: 0, aged_stamp: None })
 }
 
 fn gen_tag(g: u32) -> &'static str {
@@ -445,7 +447,10 @@ async fn op_batch(mon: &Monitor, rng: &mut Rng, w: &mut World, check_state: bool
         } else {
             pick_n(rng, tent[pi])
         };
-        let ts = pick_ts(rng, now);
+        let ts = match w.aged_stamp {
+            Some(age) => now - age,
+            None => pick_ts(rng, now),
+        };
         let (salt, hrel) = pick_salt(rng, &w.peers[pi], n);
         let tv = TsView::of(ts, now, now);
         if Some(n) == tent[pi].checked_add(1) && !tv.may_future && !tv.may_old {
@@ -764,7 +769,7 @@ async fn op_race(mon: &Monitor, rng: &mut Rng, w: &mut World) {
 }
 
 /// stop, reload from the same path, check the reloaded state, continue on the new store
-async fn op_reload(mon: &Monitor, rng: &mut Rng, w: &mut World, mid_ops: usize) {
+async fn op_reload(mon: &Monitor, rng: &mut Rng, w: &mut World, mid_ops: usize, age_out: bool) {
     // checkpoint: everything accepted up to here is covered by any sync that STARTS from now on
     let cp: Vec<u64> = w.peers.iter().map(|p| p.last).collect();
     let p1 = w.sys.get_stats().await.persistence_ops;
@@ -777,7 +782,7 @@ async fn op_reload(mon: &Monitor, rng: &mut Rng, w: &mut World, mid_ops: usize) 
         }
     }
     // the sync that was possibly in flight at the checkpoint is p1+1; p1+2 started after it
-    let want_floor = rng.chance(0.8);
+    let want_floor = age_out || rng.chance(0.8);
     let mut floor_known = false;
     if want_floor {
         let t0 = std::time::Instant::now();
@@ -793,8 +798,14 @@ async fn op_reload(mon: &Monitor, rng: &mut Rng, w: &mut World, mid_ops: usize) 
             tokio::time::sleep(Duration::from_millis(2)).await;
         }
     }
+    if age_out {
+        // let the persisted stamps (3597 s old when accepted) cross the one-hour age: a number that
+        // was accepted and persisted stays refused however old its peer's last activity is
+        tokio::time::sleep(Duration::from_millis(4200)).await;
+        mon.count("reloads.after-stamps-aged-past-one-hour", 1);
+    }
     // an unsynced tail that may legitimately be lost
-    let tail_ops = rng.urange(0, 6);
+    let tail_ops = if age_out { 0 } else { rng.urange(0, 6) };
     for _ in 0..tail_ops {
         op_single(mon, rng, w, false).await;
     }
@@ -977,13 +988,23 @@ async fn scenario(mon: &Monitor, rng: &mut Rng, idx: u64) {
             2 => op_race(mon, rng, &mut w).await,
             _ => {
                 let mid = rng.urange(0, 20);
-                op_reload(mon, rng, &mut w, mid).await
+                op_reload(mon, rng, &mut w, mid, false).await
             }
         }
     }
+    // one scenario per shard (a few in the thorough tier) ends with peers whose last accepted entries
+    // carry stamps just inside the accepted age, persisted, and reloaded once those stamps are older
+    // than the age limit
+    if !mon.time_up() && !long && (idx == 1 || (!mon.quick() && idx % 40 == 1)) {
+        w.aged_stamp = Some(3597);
+        op_batch(mon, rng, &mut w, true).await;
+        op_batch(mon, rng, &mut w, true).await;
+        w.aged_stamp = None;
+        op_reload(mon, rng, &mut w, 0, true).await;
+    }
     // always end with one reload so that long histories are covered too
     if !mon.time_up() {
-        op_reload(mon, rng, &mut w, 3).await;
+        op_reload(mon, rng, &mut w, 3, false).await;
         for _ in 0..10 {
             op_single(mon, rng, &mut w, true).await;
         }
@@ -1078,6 +1099,8 @@ fn spin_races(mon: &Monitor, seed: u64) {
 
 fn main() {
     let mon = Monitor::new("C12", "exploration");
+    // supplementary sanitizer lanes (thorough tier): built and run alongside the behavioural workload, joined before the verdict
+    let lanes = checks::lanes::start(&mon, &[("miri", "counter", "0..8")]);
     mon.set_rule("case = one submission (validate_sequence or one batch_update entry), one race of T tasks on one peer, or one reload check; non-trivial when the peer already has accepted numbers (submission), when >=1 number is submitted by >=2 racers (race), or when numbers were accepted before the checkpoint (reload); distinct by (api, classification, relation of n to last, hash relation, timestamp class, reload generation) / (race pattern, width class, classes seen, generation) / (generation, proven-sync floor, tail lost, history > 1000)");
     mon.assume("wall-clock seconds read before and after batch_update bracket the library's own reading; entries whose timestamp class depends on which second was read are accepted either way and counted");
     mon.assume("a sync is known complete when persistence_ops advanced by 2 since the checkpoint (the first may have snapshotted earlier); stop_sync_task cannot recall a file write already under way, so the store is reopened from a copy of the file at a new path (one path per generation) and a file caught empty or torn is re-read, not judged");
@@ -1096,6 +1119,6 @@ fn main() {
     });
     spin_races(&mon, mon.seed);
     // supplementary sanitizer lane (thorough): submissions racing on OS threads under Miri (UB + data races)
-    checks::lanes::run(&mon, "miri", "counter", "0..8");
+    checks::lanes::join(&mon, lanes);
     mon.finish();
 }
